@@ -36,8 +36,16 @@ def abs_trap(trap):
     return out
 
 
-def run_word(word, community="public", mode="protocol"):
+def run_word(word, community="public", mode="protocol", debuglog=False):
     """word: list of dict(kind, raw bytes, src key)"""
+    with debug_logging(debuglog):
+        t = _run_word(word, community, mode)
+    if debuglog:
+        t["scenario"]["debuglog"] = True
+    return t
+
+
+def _run_word(word, community="public", mode="protocol"):
     import puresnmp.api.raw as RAW
     from puresnmp.transport import SNMPTrapReceiverProtocol
     from puresnmp import V2C
